@@ -2,7 +2,8 @@ from vlib.core import Ob
 from props._compose import pick
 ID = "C11"
 LEVEL = "model_checking"
-FUNCTIONS = ["range_stack", "Range_Iter_Init", "Range_Iter_Next", "Range_Iter_Last", "Range_Iter_Prev", "Range_Len", "Range_Get", "iter_init", "iter_next", "iter_last", "iter_prev", "len", "get"]
+FUNCTIONS = ["slice_stack", "Slice_Arg", "Slice_Iter_Init", "Slice_Iter_Next", "Slice_Iter_Last", "Slice_Iter_Prev", "Slice_Len", "Slice_Get", "zip_stack", "Zip_Iter_Init", "Zip_Iter_Next", "Zip_Iter_Last", "Zip_Iter_Prev", "Zip_Len", "Zip_Get",
+             "Filter_Iter_Init", "Filter_Iter_Next", "Filter_Iter_Last", "Filter_Iter_Prev", "Map_Iter_Init", "Map_Iter_Next", "Map_Iter_Last", "Map_Iter_Prev", "Map_Len", "Map_Get", "range_stack", "Range_Iter_Init", "Range_Iter_Next", "Range_Iter_Last", "Range_Iter_Prev", "Range_Len", "Range_Get", "iter_init", "iter_next", "iter_last", "iter_prev", "len", "get"]
 ASSUMPTIONS = []
 EXPLANATION = "bounded symbolic execution of the iteration protocol of every iterable against reference sequences"
 US = ["Type_Scan.0:24", "Type_Scan.1:24", "strcmp.0:24"]
@@ -12,7 +13,15 @@ OBLIGATIONS = [
     Ob("range.len64", "C11/range_len64.c", unwind=5, unwindset=US, checks=["overflow", "div0"], tiers=("thorough",), timeout=3600,
        desc="Range_Len vs closed form over 62-bit operands"),
 ]
+RC = ["iter_init:v_iter_init", "iter_next:v_iter_next", "iter_last:v_iter_last", "iter_prev:v_iter_prev", "iter_type:v_iter_type", "len:v_len", "get:v_get", "call_with:v_call"]
+def V(name, op, nmax=3, extra=(), **kw):
+    us = ["Type_Scan.0:40", "Type_Scan.1:40", "strcmp.0:26", "v_len.0:8", "idxA.0:%d" % (nmax + 2), "idxB.0:%d" % (nmax + 2), "memcpy.0:8", "memcpy.1:40"]
+    return Ob("views.%s.n%d" % (name, nmax), "C11/views.c", defs=["OP=%s" % op, "NMAX=%d" % nmax] + list(extra), replace=["Iter.c"], replace_calls=RC,
+              unwind=nmax + 4, unwindset=us, checks=["bounds", "pointer", "overflow"], tiers=("quick", "thorough"), object_bits=14, timeout=900, **kw)
+VIEWS = [V("slice.omit%d" % o, "OP_SLICE", extra=["OMIT=%d" % o]) for o in range(4)] + [V("zip", "OP_ZIP"), V("filter", "OP_FILTER"), V("map", "OP_MAP")]
+OBLIGATIONS += VIEWS
+OBLIGATIONS += pick("C04", r"(tuple|list)\.iter\.")
 OBLIGATIONS += pick("C02", r"table\.iter\.") + pick("C03", r"tree\.iter\.") + pick("C04", r"array\.iter\.")
 LEVEL_TEXT = ("Bounded model checking of the iteration protocol: Range through the full real dispatch for all start/stop in [-B,B] and step in [-3,3]; "
               "container cursors (Array, Table, Tree) from arbitrary valid states in the C04/C02/C03 harnesses, whose obligations this check also runs.")
-LEVEL_NOTE = "Trusted: cbmc; reference sequences written from the definitions in the property text. Slice/Zip/Filter/Map: see known findings and DESIGN.md."
+LEVEL_NOTE = "Trusted: cbmc; reference sequences written from the definitions in the property text. Slice (all four omitted-bound forms, int64 start/stop, steps in [-3,3]), Zip of two inputs, Filter and Map over abstract underlying iterables of <= 3 items that assert they are never read outside; view nesting and enumerate are not covered."
